@@ -14,9 +14,9 @@ import (
 )
 
 var profile = gen.Profile{
-	MinSteps: 4, MaxSteps: 28, Limits: []int{32, 32, 2},
+	MinSteps: 4, MaxSteps: 28, Limits: []int{32},
 	IDPool: []string{"1", "2", `"1"`, "3", `"s"`},
-	PNote:  12, PGate: 75, PInvalid: 5, PUnknown: 22, PBatch: 30, MaxBatch: 3,
+	PNote:  0, PGate: 75, PInvalid: 5, PUnknown: 22, PBatch: 30, MaxBatch: 3,
 	PCancel: 18, PBurst: 25, PObey: 35, Builtins: true, Pins: true,
 	Outcomes: []string{"ok", "ok", "err:-32000", "ctxerr", "bad"},
 	Chans:    []string{"direct", "pipe"},
@@ -25,14 +25,14 @@ var profile = gen.Profile{
 func genCase(t *rapid.T) sim.Scenario { return gen.ServerScenario(t, profile) }
 
 func run(t *testing.T, sc sim.Scenario) engine.Verdict {
-	return oracle.RunServer(t, sc, []string{"C07/", "C01/reply-mismatch", "C01/reply-missing"}, func(f oracle.Facts) bool {
+	return oracle.RunServer(t, sc, []string{"C07/"}, func(f oracle.Facts) bool {
 		return f.IDReuse && (f.IDReuseInFlight || f.IDReuseAfterError || f.IDReuseAfterCancel)
 	})
 }
 
 var parts = []engine.AnyPart{
 	engine.Part[sim.Scenario]{Name: "scenarios", Run: run, Gen: genCase,
-		Rule: "rapid-generated histories of calls whose ids come from the pool {1, 2, \"1\", 3, \"s\"} (constant reuse), to parking / immediate / failing handlers, unknown and reserved methods, duplicates inside one array, CancelRequest for in-flight, finished and never-seen ids, a parked notification in front so that reused ids meet the barrier; at every quiescent point the context of each parked invocation must be cancelled iff a CancelRequest named its id while it was in flight, the reserved-id snapshot must equal the model's in-flight set, duplicates of in-flight ids are answered -32600 without disturbing the first call, ids are accepted again after any reply; non-trivial = an id is reused while the first use is in flight, or after an error reply, or after a CancelRequest; distinct = hash of the scenario"},
+		Rule: "rapid-generated histories of calls whose ids come from the pool {1, 2, \"1\", 3, \"s\"} (constant reuse), to parking / immediate / failing handlers, unknown and reserved methods, duplicates inside one array, CancelRequest for in-flight, finished and never-seen ids, at every quiescent point the context of each parked invocation must be cancelled iff a CancelRequest named its id while it was in flight, the reserved-id snapshot must equal the model's in-flight set, duplicates of in-flight ids are answered -32600 without disturbing the first call, ids are accepted again after any reply; non-trivial = an id is reused while the first use is in flight, or after an error reply, or after a CancelRequest; distinct = hash of the scenario"},
 }
 
 func TestProp(t *testing.T)   { engine.RunParts(t, "C07", parts) }
